@@ -12,6 +12,7 @@ Python float -> z3 Real (the "floats as reals" abstraction; stated in every
 Python bool  -> z3 Bool
 """
 import math
+import os
 import time
 from fractions import Fraction
 
@@ -280,6 +281,9 @@ class Sym:
     def _placeholder(self):
         ctx = current()
         if ctx is not None and not ctx.in_nofmt:
+            if 'fmt-of-symbol' not in ctx.flags and os.environ.get('SYMX_DEBUG_FMT'):
+                import traceback
+                traceback.print_stack(limit=8)
             ctx.flags.add('fmt-of-symbol')
         return PLACEHOLDER
 
